@@ -96,7 +96,7 @@ class Claims:
         f = self.known.get(fid)
         return f is not None and f.get('status') == 'known'
 
-    def claim(self, ctx, goal, label, inputs=None, replay=None, excuses=(), timeout_ms=None, detail=None):
+    def claim(self, ctx, goal, label, inputs=None, replay=None, excuses=(), timeout_ms=None, detail=None, prefer=()):
         """Prove `goal` on this path.
 
         inputs : callable(model) -> jsonable dict of concrete inputs (for replay / reporting)
@@ -116,7 +116,16 @@ class Claims:
         if res == 'unknown':
             self.part.inconclusive.append("%s: solver returned unknown" % label)
             return False
-        # sat: candidate counterexample
+        # sat: candidate counterexample; prefer a model with 'nice' values (exactly representable in floating point)
+        if prefer:
+            g = goal if isinstance(goal, z3.ExprRef) else C.bterm(goal)
+            base = ctx.all_formulas() + [z3.Not(g)]
+            hints = [p if isinstance(p, z3.ExprRef) else C.bterm(p) for p in prefer]
+            for k in range(len(hints), 0, -1):
+                r2, m2, _dt = self.ex.solve(base + hints[:k], 10000, None, fallback=False)
+                if r2 == 'sat':
+                    model = m2
+                    break
         return self._handle_cex(ctx, goal, label, model, inputs, replay, excuses, timeout_ms, detail)
 
     def _absorb_stats(self):
@@ -234,18 +243,20 @@ def write_evidence(prop, tier, seed, parts, wall, level='model_checking', extra=
     }
     if extra:
         ev['coverage'].update(extra)
-    os.makedirs(os.path.join(VERIF, 'evidence'), exist_ok=True)
-    path = os.path.join(VERIF, 'evidence', '%s.json' % prop)
+    evdir = os.environ.get('VERIF_EVIDENCE_DIR') or os.path.join(VERIF, 'evidence')
+    os.makedirs(evdir, exist_ok=True)
+    path = os.path.join(evdir, '%s.json' % prop)
     with open(path, 'w') as fh:
         json.dump(ev, fh, indent=1, sort_keys=False)
     return ev
 
 
 def write_replay(prop, rec):
-    os.makedirs(os.path.join(VERIF, 'replays'), exist_ok=True)
+    rdir = os.environ.get('VERIF_REPLAY_DIR') or os.path.join(VERIF, 'replays')
+    os.makedirs(rdir, exist_ok=True)
     blob = json.dumps(rec, sort_keys=True)
     dig = hashlib.sha1(blob.encode()).hexdigest()[:10]
-    path = os.path.join(VERIF, 'replays', '%s-%s.json' % (prop, dig))
+    path = os.path.join(rdir, '%s-%s.json' % (prop, dig))
     with open(path, 'w') as fh:
         fh.write(json.dumps({'property': prop, **rec}, indent=1))
     return path
